@@ -141,7 +141,9 @@ def w_files(tool, libdir, exe, files, workdir, wid):
     cnt = part["counters"]
     d = os.path.join(workdir, "files-%d" % wid)
     os.makedirs(d, exist_ok=True)
-    env = build.san_env({"LD_LIBRARY_PATH": libdir, "ASAN_OPTIONS": "abort_on_error=1:detect_leaks=1:halt_on_error=1"})
+    env_c = build.san_env({"LD_LIBRARY_PATH": libdir, "ASAN_OPTIONS": "abort_on_error=1:detect_leaks=1:halt_on_error=1"})
+    env_u = dict(env_c, LC_ALL="C.UTF-8")          # the tool adopts the environment's locale: every other invocation under C.UTF-8
+    env = env_c
     i = 0
     group = 0
     while i < len(files):
@@ -149,6 +151,7 @@ def w_files(tool, libdir, exe, files, workdir, wid):
         chunk = files[i:i + k]
         i += k
         group += 1
+        env = env_u if group % 2 else env_c
         paths = []
         kinds = []
         fifo_jobs = []
